@@ -735,14 +735,17 @@ class Povm(QOperation):
                 eigenvals, eigenvecs = np.linalg.eigh(matrix)
                 spectral_decomp = dict()
                 eigenval_prev = None
+                # eigenvalues that agree within atol belong to one eigenspace: eigh returns a
+                # repeated eigenvalue bitwise equal only for special (e.g. diagonal) matrices
+                atol = Settings.get_atol()
                 for eigenval, eigenvec in zip(eigenvals, eigenvecs.T):
-                    if eigenval_prev == eigenval:
+                    if eigenval_prev is not None and abs(eigenval - eigenval_prev) <= atol:
                         P = np.dot(np.array([eigenvec]).T, np.array([eigenvec]).conjugate())
-                        spectral_decomp[eigenval].append(P)
+                        spectral_decomp[eigenval_prev].append(P)
                     else:
                         P = np.dot(np.array([eigenvec]).T, np.array([eigenvec]).conjugate())
                         spectral_decomp[eigenval] = [P]
-                    eigenval_prev = eigenval
+                        eigenval_prev = eigenval
 
                 hs_cb = None
                 for eigenval, Ps in spectral_decomp.items():
